@@ -6,7 +6,7 @@
    rearrangements (Permutation (sh l) l), so every statement holds for every iteration order. *)
 From Coq Require Import Permutation.
 From Verif Require Import Lib.Bytes StateRes.Event StateRes.Kahn StateRes.V2 StateRes.V1 StateRes.Entry
-     StateRes.SortProofs StateRes.KahnProofs StateRes.OrderProofs.
+     StateRes.SortProofs StateRes.KahnProofs StateRes.OrderProofs StateRes.ResultProofs StateRes.CmpProofs.
 
 (* slices.SortStableFunc by a total order whose ties are identities: the result depends only on
    the set of elements, not on the order they were in (map iteration order, input order) *)
@@ -66,6 +66,62 @@ Section Orderings.
   Proof. apply power_order_topological; assumption. Qed.
 End Orderings.
 
+
+(* ---------- well-formed results (v2 / v2.1, current and deprecated driver) ---------- *)
+Section Results.
+  Variable allowed : event -> list event -> bool.
+  Variable rejected : bytes -> bool.
+  Variable shE : list event -> list event.
+  Variable shP : list pwrap -> list pwrap.
+  Variable shG : list (tkey * list event) -> list (tkey * list event).
+  Variable priv : bool.
+  Variable cl ud : Z.
+
+  (* at most one event per (type, state_key); only state events *)
+  Theorem result_at_most_one_per_key v21 sets auth_events e1 e2 :
+    let result := result_events (resolve_v2_new allowed rejected shE shP shG priv cl ud v21 sets auth_events) in
+    In e1 result -> In e2 result -> event_tkey e1 = event_tkey e2 -> e1 = e2.
+  Proof. intro result. apply smap_wf_unique, resolve_v2_new_wf. Qed.
+
+  Theorem result_only_state_events v21 sets auth_events e :
+    In e (result_events (resolve_v2_new allowed rejected shE shP shG priv cl ud v21 sets auth_events)) ->
+    e_skey e <> None.
+  Proof. apply smap_wf_state_events, resolve_v2_new_wf. Qed.
+
+  Theorem result_at_most_one_per_key_deprecated conflicted unconflicted auth_events e1 e2 :
+    let result := result_events (resolve_v2_old allowed rejected shE shP priv cl ud conflicted unconflicted auth_events) in
+    In e1 result -> In e2 result -> event_tkey e1 = event_tkey e2 -> e1 = e2.
+  Proof. intro result. apply smap_wf_unique, resolve_v2_old_wf. Qed.
+
+  (* an event the split reports as unconflicted (one per key) is kept: the unconflicted events
+     are re-applied after everything else *)
+  Theorem agreed_keys_kept_partial authmap r0 control others unconflicted e k :
+    In e unconflicted -> event_tkey e = Some k ->
+    (forall e', In e' unconflicted -> event_tkey e' = Some k -> e' = e) ->
+    In e (result_events (resolve_tail allowed rejected shP priv cl ud authmap r0 control others unconflicted)).
+  Proof. apply unconflicted_event_kept. Qed.
+End Results.
+
+(* the tie-break keys are total orders whose ties are the same event ID, so the sorts (and the
+   pops of the Kahn queue) do not depend on the order the items arrive in *)
+Theorem power_sort_canonical (l l' : list pwrap) :
+  NoDup (map (fun w => e_id (pw_ev w)) l) -> Permutation l l' -> ssort pw_cmp l = ssort pw_cmp l'.
+Proof.
+  intros ND P. apply ssort_canonical; auto.
+  - apply (good_antisym _ _ pw_cmp_good).
+  - apply (good_le_trans _ _ pw_cmp_good).
+  - intros a b Ha Hb E. apply pw_cmp_eq in E. eapply NoDup_map_inj; eauto.
+Qed.
+
+Theorem mainline_sort_canonical (l l' : list owrap) :
+  NoDup (map (fun w => e_id (ow_ev w)) l) -> Permutation l l' -> ssort ow_cmp l = ssort ow_cmp l'.
+Proof.
+  intros ND P. apply ssort_canonical; auto.
+  - apply (good_antisym _ _ ow_cmp_good).
+  - apply (good_le_trans _ _ ow_cmp_good).
+  - intros a b Ha Hb E. apply ow_cmp_eq in E. eapply NoDup_map_inj; eauto.
+Qed.
+
 (* ---------- non-vacuity: a concrete chain A <- B <- C given in the order C, A, B ---------- *)
 Definition ex_ev (id : bytes) (auth : list bytes) (ts : Z) : event :=
   mkEvent id (bs "m.room.topic") (Some []) (bs "@u:h") ts 1%Z auth auth [] (bs "{}").
@@ -90,3 +146,9 @@ Print Assumptions kahn_is_topological_permutation.
 Print Assumptions reverse_topological_ordering_is_topological_permutation.
 Print Assumptions linearise_state_response_is_topological_permutation.
 Print Assumptions power_order_is_topological_permutation.
+Print Assumptions result_at_most_one_per_key.
+Print Assumptions result_only_state_events.
+Print Assumptions result_at_most_one_per_key_deprecated.
+Print Assumptions agreed_keys_kept_partial.
+Print Assumptions power_sort_canonical.
+Print Assumptions mainline_sort_canonical.
